@@ -69,7 +69,10 @@ def drive(tier):
     amounts += [r.randrange(0, MAXM + 1) for _ in range(60 if tier == "quick" else 3000)]
     amounts += [r.randrange(0, 10 ** k) for k in range(1, 16) for _ in range(2)]
     kinds = [("error-code", c) for c in (-2, -5, -8, -25, -26, -27, -28, -1, -32601, 0, 1, -343)] + \
-            [("error-nocode", 0), ("error-nondict", 0), ("missing-result", 0), ("non-json", 0)]
+            [("error-nocode", 0), ("error-nondict", 0), ("missing-result", 0), ("non-json", 0),
+             # non-null but falsy error members, with a result present: still error replies
+             ("error-nondict-emptydict", 0), ("error-nondict-zero", 0), ("error-nondict-false", 0),
+             ("error-nondict-emptystring", 0), ("error-nondict-emptylist", 0), ("non-json-empty", 0)]
 
     def reply_for(kind, code, result_json):
         if kind == "result":
@@ -80,6 +83,12 @@ def drive(tier):
             return b'{"result": null, "error": {"message": "no code"}, "id": 1}'
         if kind == "error-nondict":
             return b'{"result": 5, "error": "plain string error", "id": 1}'
+        falsy = {"error-nondict-emptydict": "{}", "error-nondict-zero": "0", "error-nondict-false": "false",
+                 "error-nondict-emptystring": '""', "error-nondict-emptylist": "[]"}
+        if kind in falsy:
+            return ('{"result": 7, "error": %s, "id": 1}' % falsy[kind]).encode()
+        if kind == "non-json-empty":
+            return b""
         if kind == "missing-result":
             return b'{"id": 1}'
         return b"<html>502 Bad Gateway</html>"
